@@ -28,7 +28,9 @@ fn errnos_for(call: &str, arg: i64) -> Vec<i32> {
         "stat" | "fstat" | "readdir" | "read" | "lseek" => vec![libc::EIO, libc::ESTALE],
         "chmod" | "fchmod" | "futimens" | "utimensat" | "unlink" => vec![libc::EIO, libc::EACCES, libc::ESTALE],
         "rename" | "link" | "mkdir" => vec![libc::EIO, libc::EACCES, libc::ENOSPC, libc::ESTALE],
-        "write" | "copy_file_range" | "ftruncate" | "fsync" => vec![libc::EIO, libc::ENOSPC],
+        // errno 0 stands for a SHORT count: the call succeeds but transfers only part of the data
+        "write" | "copy_file_range" => vec![libc::EIO, libc::ENOSPC, 0],
+        "ftruncate" | "fsync" => vec![libc::EIO, libc::ENOSPC],
         "close" => vec![libc::EIO],
         _ => vec![],
     }
@@ -58,7 +60,7 @@ pub fn judge(root: &Path, c: &Case) -> Result<bool, (String, String)> {
     let world = trace_world(&[root]);
     let temps_before = temp_files(root);
     let (r, ev) = traced(&world, || {
-        crate::shim::set_fault(Fault::Inject(c.k, c.errno));
+        crate::shim::set_fault(if c.errno == 0 { Fault::Short(c.k) } else { Fault::Inject(c.k, c.errno) });
         let ret = run_op(root, &b);
         let hit = crate::shim::fault_was_hit();
         crate::shim::set_fault(Fault::None);
@@ -69,8 +71,8 @@ pub fn judge(root: &Path, c: &Case) -> Result<bool, (String, String)> {
         if !hit {
             return Ok(false);
         }
-        let inj = ev.iter().find(|e| e.injected).cloned();
-        let what = || format!("{} [{} / {} / fe {}] with {} failing (errno {})", OP_NAMES[c.os.op as usize], PRE_NAMES[c.os.pre as usize], if c.os.fire { "maintenance fires" } else { "no maintenance" }, c.os.fe, inj.as_ref().map(|e| e.short()).unwrap_or_default(), c.errno);
+        let inj = ev.iter().find(|e| e.injected || (c.errno == 0 && e.idx == c.k && e.op == 0)).cloned();
+        let what = || format!("{} [{} / {} / fe {}] with {} failing (errno {})", OP_NAMES[c.os.op as usize], PRE_NAMES[c.os.pre as usize], if c.os.fire { "maintenance fires" } else { "no maintenance" }, c.os.fe, inj.as_ref().map(|e| e.short()).unwrap_or_default(), if c.errno == 0 { "0 = short count".to_string() } else { c.errno.to_string() });
         // (1) panics
         if let Ret::Panic(m) = &ret {
             let documented = m.contains("auto_sync failed") && matches!(c.os.op, 5 | 6) && inj.as_ref().map(|e| e.call == "fsync").unwrap_or(false);
